@@ -10,7 +10,7 @@ TOKENS = ["<", ">", "/", "%", "#", "(", ")", "$$", "a", "B", "1", "-", " ", "\t"
 # complete-line shapes for the nesting logic
 LINE_SHAPES = ["<a>", "<A n>", "<b>", "<a/>", "<a N />", "</a>", "</A >", "</b>",
                "k v", "k", "", "# c", "%import p", "<a b c>", "</a n>", "<a/ >",
-               "k a\x0cb", "# c\u2028k v", "k a\x85b\rc", "</A>"]
+               "k a\x0cb", "# c\u2028k v", "k a\x85b\rc", "</A>", "< a>", "<\ta n/>", "<a>b>"]
 # extra shapes only used with the recording context (schemaless refuses them)
 DIRECTIVE_SHAPES = ["%define n v", "%define N", "%include f", "k $n", "%define m $n",
                     "%Define n v", "%define", "%import", "%foo x", "% define n v",
